@@ -25,6 +25,7 @@ import (
 	"github.com/go-openapi/analysis/internal/flatten/replace"
 	"github.com/go-openapi/analysis/internal/flatten/schutils"
 	"github.com/go-openapi/analysis/internal/flatten/sortref"
+	"github.com/go-openapi/analysis/internal/verifhook"
 	"github.com/go-openapi/jsonpointer"
 	"github.com/go-openapi/spec"
 )
@@ -109,6 +110,7 @@ func Flatten(opts FlattenOpts) error {
 	debugLog("FlattenOpts: %#v", opts)
 
 	opts.flattenContext = newContext()
+	verifhook.Phase("0-entry", opts.Swagger())
 
 	// 1. Recursively expand responses, parameters, path items and items in simple schemas.
 	//
@@ -116,6 +118,7 @@ func Flatten(opts FlattenOpts) error {
 	if err := expand(&opts); err != nil {
 		return err
 	}
+	verifhook.Phase("1-expand", opts.Swagger())
 
 	// 2. Strip the current document from absolute $ref's that actually a in the root,
 	// so we can recognize them as proper definitions
@@ -124,6 +127,7 @@ func Flatten(opts FlattenOpts) error {
 	if err := normalizeRef(&opts); err != nil {
 		return err
 	}
+	verifhook.Phase("2-normalize", opts.Swagger())
 
 	// 3. Optionally remove shared parameters and responses already expanded (now unused).
 	//
@@ -131,11 +135,13 @@ func Flatten(opts FlattenOpts) error {
 	if opts.RemoveUnused {
 		removeUnusedShared(&opts)
 	}
+	verifhook.Phase("3-removeshared", opts.Swagger())
 
 	// 4. Import all remote references.
 	if err := importReferences(&opts); err != nil {
 		return err
 	}
+	verifhook.Phase("4-import", opts.Swagger())
 
 	// 5. full flattening: rewrite inline schemas (schemas that aren't simple types or arrays or maps)
 	if !opts.Minimal && !opts.Expand {
@@ -143,17 +149,20 @@ func Flatten(opts FlattenOpts) error {
 			return err
 		}
 	}
+	verifhook.Phase("5-nameinline", opts.Swagger())
 
 	// 6. Rewrite JSON pointers other than $ref to named definitions
 	// and attempt to resolve conflicting names whenever possible.
 	if err := stripPointersAndOAIGen(&opts); err != nil {
 		return err
 	}
+	verifhook.Phase("6-strip", opts.Swagger())
 
 	// 7. Strip the spec from unused definitions
 	if opts.RemoveUnused {
 		removeUnused(&opts)
 	}
+	verifhook.Phase("7-removeunused", opts.Swagger())
 
 	// 8. Issue warning notifications, if any
 	opts.croak()
@@ -220,6 +229,7 @@ func importReferences(opts *FlattenOpts) error {
 	)
 
 	for !imported && err == nil {
+		verifhook.Loop("importReferences")
 		// iteratively import remote references until none left.
 		// This inlining deals with name conflicts by introducing auto-generated names ("OAIGen")
 		imported, err = importExternalReferences(opts)
@@ -267,6 +277,7 @@ func nameInlinedSchemas(opts *FlattenOpts) error {
 
 func removeUnused(opts *FlattenOpts) {
 	for removeUnusedSinglePass(opts) {
+		verifhook.Loop("removeUnused")
 		// continue until no unused definition remains
 	}
 }
@@ -469,6 +480,7 @@ func stripPointersAndOAIGen(opts *FlattenOpts) error {
 
 	// iterate as pointer or OAIGen resolution may introduce inline schemas or pointers
 	for hasIntroducedPointerOrInline {
+		verifhook.Loop("stripPointersAndOAIGen")
 		if !opts.Minimal {
 			opts.Spec.reload() // re-analyze
 			if err := nameInlinedSchemas(opts); err != nil {
